@@ -17,11 +17,16 @@ var zzT0 = ledger.Time{Time: time.Date(2022, 5, 4, 10, 11, 12, 123456000, time.U
 // one committed transaction with arbitrary id N (world -> seed, 10 USD/2). That is all
 // Commander.Init reads, so one step from this state stands for a history of any length.
 func zzPreload(st *zzStore) (L, N *big.Int) {
-	L = verifhook.BigInt("L")
 	N = verifhook.BigInt("N")
-	verifhook.Assume(L.Sign() >= 0)
 	verifhook.Assume(N.Sign() >= 0)
 	verifhook.Assume(N.Cmp(new(big.Int).Lsh(big.NewInt(1), 62)) < 0)
+	return zzPreloadWith(st, N)
+}
+
+// zzPreloadWith uses the given last transaction id (symbolic or concrete).
+func zzPreloadWith(st *zzStore, N *big.Int) (*big.Int, *big.Int) {
+	L := verifhook.BigInt("L")
+	verifhook.Assume(L.Sign() >= 0)
 	tx := &ledger.Transaction{ID: N}
 	tx.Postings = ledger.Postings{{Source: "world", Destination: "seed", Asset: "USD/2", Amount: big.NewInt(10)}}
 	tx.Metadata = metadata.Metadata{}
@@ -33,7 +38,7 @@ func zzPreload(st *zzStore) (L, N *big.Int) {
 	}
 	st.InMemoryStore.PreloadLog(log)
 	st.InMemoryStore.PreloadTransaction(&ledger.ExpandedTransaction{Transaction: *tx})
-	return
+	return L, N
 }
 
 func zzHash0() []byte {
@@ -261,10 +266,32 @@ func zzIDString(v any) string {
 }
 
 // ZZ_C13: every log entry the write path emits can be read back and re-verified.
+var zzC13BigIDs = []string{"", "9007199254740993", "1234567890123456789", "4611686018427387905"}
+
+func ZZ_C13N() int { return zzKinds * len(zzC13BigIDs) }
+
+func ZZ_C13Desc(i int) string {
+	id := zzC13BigIDs[i/zzKinds]
+	if id == "" {
+		id = "symbolic (< 2^62)"
+	}
+	return "write kind: " + zzKindNames[i%zzKinds] + ", last transaction id " + id
+}
+
 func ZZ_C13(shape int) {
-	kind := shape
+	kind := shape % zzKinds
 	amt := verifhook.BigInt("amt")
-	w, _, N := zzNewWorld()
+	var w *zzWorld
+	var N *big.Int
+	if v := zzC13BigIDs[shape/zzKinds]; v == "" {
+		w, _, N = zzNewWorld()
+	} else {
+		N, _ = new(big.Int).SetString(v, 10)
+		st := zzNewStore()
+		st.setOpening("a", "USD/2", verifhook.BigInt("bal_a"))
+		zzPreloadWith(st, N)
+		w = zzStart(st, NewDefaultLocker())
+	}
 	p := Parameters{}
 	if kind%2 == 1 {
 		p.IdempotencyKey = "key-13"
